@@ -403,7 +403,7 @@ func c16Gen(t *rapid.T) c16Case {
 		c.Mech = strings.TrimSuffix(c.Mech, "-NOENC")
 	}
 	c.Steps = map[string]refsmtp.Outcome{}
-	switch rapid.IntRange(0, 7).Draw(t, "script") {
+	switch rapid.IntRange(0, 9).Draw(t, "script") {
 	case 0:
 		c.Steps["auth#1"] = refsmtp.Outcome{Kind: "reply", Code: 535, Text: "5.7.8 no"}
 	case 1:
@@ -419,13 +419,20 @@ func c16Gen(t *rapid.T) c16Case {
 		c.Extra = true
 	case 5:
 		c.Steps["auth#1"] = refsmtp.Outcome{Kind: "drop"}
+	case 6: // the challenge is sent, then the connection is closed: the client's write of its response fails
+		k := rapid.IntRange(1, 3).Draw(t, "dropafterstep")
+		c.Steps[fmt.Sprintf("authstep#%d", k)] = refsmtp.Outcome{Kind: "dropafter"}
+	case 7: // the connection is closed right after the EHLO reply: the AUTH command itself (with an initial response) cannot be written
+		if c.TLS == "none" {
+			c.Steps["ehlo#1"] = refsmtp.Outcome{Kind: "dropafter", Code: 250, Text: "ref.verif.example\n8BITMIME\nAUTH " + strings.TrimSuffix(c.Mech, "-NOENC")}
+		}
 	}
 	return c
 }
 
 func TestC16(t *testing.T) {
 	rec := core.Rec("C16")
-	rec.Rule = "the real Client with WithDebugLog (auth-data logging not enabled) authenticates against the reference SASL servers with mechanisms {PLAIN, LOGIN (NOENC and over TLS), CRAM-MD5, XOAUTH2, SCRAM-SHA-1/-256 and PLUS over TLS 1.2/1.3}, random alphanumeric passwords/tokens of 12..40 characters, right or wrong password, and server scripts {success, 535 to the AUTH command, 535 / non-base64 challenge / disconnect at exchange step 1..3, unexpected extra challenge, disconnect at AUTH}; loggers: a capturing log.Logger, log.New (text) and log.NewJSON; optionally followed by a MAIL/RCPT/DATA transaction; one case in four (of the non-TLS ones) drives the exported smtp.Client API directly (NewClient, SetLogger, SetDebugLog, Auth with or without a prior Hello, Mail, Quit). " +
+	rec.Rule = "the real Client with WithDebugLog (auth-data logging not enabled) authenticates against the reference SASL servers with mechanisms {PLAIN, LOGIN (NOENC and over TLS), CRAM-MD5, XOAUTH2, SCRAM-SHA-1/-256 and PLUS over TLS 1.2/1.3}, random alphanumeric passwords/tokens of 12..40 characters, right or wrong password, and server scripts {success, 535 to the AUTH command, 535 / non-base64 challenge / disconnect at exchange step 1..3, unexpected extra challenge, disconnect at AUTH, disconnect right after a challenge or right after the EHLO reply so that the client's write of the secret-bearing line fails}; loggers: a capturing log.Logger, log.New (text) and log.NewJSON; optionally followed by a MAIL/RCPT/DATA transaction; one case in four (of the non-TLS ones) drives the exported smtp.Client API directly (NewClient, SetLogger, SetDebugLog, Auth with or without a prior Hello, Mail, Quit). " +
 		"Oracle: no log record (each Messages element, the formatted record, the stock loggers' bytes, every JSON string value) contains the password/token raw, in hex, or in base64 at any of the three alignments, nor any SASL response line that carries the secret or a proof derived from it (as recorded by the server); and the MAIL FROM line sent after authentication appears in the log (redaction window closed). " +
 		"Non-trivial: >= 2 client responses in the exchange or an abnormal end. Distinct by (mechanism, TLS, wrong password, script, logger, transaction, password)."
 	rec.Assumptions = []string{"passwords are alphanumeric so that JSON escaping cannot hide them", "the user name and the mechanism name are not secrets"}
